@@ -4,11 +4,120 @@ From MM Require Import Model.RouteTable Proofs.RouteTableBase Proofs.RouteTableP
 Import ListNotations.
 Local Open Scope N_scope.
 
-(** (first step) the replacement rule at bucket level: after the AddRoute
-    loop an entry that shares its slot with an old entry is that entry or is
-    newer (higher sequence, or same sequence and strictly lower metric). *)
-Theorem C10_bucket_replace_rule_partial : forall {D} (r : entry D) b b' x y,
-  slots_unique same_origin b -> bucket_put same_origin r b = Some b' ->
-  In x b -> In y b' -> same_origin x y = true -> y = x \/ newer y x = true.
-Proof. exact @put_rule_origin. Qed.
-Print Assumptions C10_bucket_replace_rule_partial.
+(** All statements quantify over every history [ops] of manager operations on
+    the four tables (the domain table is two maps) from the empty manager of
+    any agent [local], and over every next operation [o].
+    [stored eqb t k x]: x is an element of the bucket of key k of table t.
+    [rule1 eqb same t t']: for every key k, x stored under k in t and y stored
+    under k in t' with [same x y] (same origin; in the agent table also the
+    same next hop): y = x or [newer y x]. *)
+
+(** Rule 1 (update rule), every step, all five maps. *)
+Theorem C10_replaced_only_by_newer : forall (local : N) (ops : list op) (o : op),
+  let m := run local ops in
+  let m' := next local m o in
+  rule1 prefix_eqb same_origin (m_cidr m) (m_cidr m') /\
+  rule1 str_eqb same_origin (m_dexact m) (m_dexact m') /\
+  rule1 str_eqb same_origin (m_dwild m) (m_dwild m') /\
+  rule1 str_eqb same_origin (m_fwd m) (m_fwd m') /\
+  rule1 N.eqb same_origin_nexthop (m_agent m) (m_agent m').
+Proof. exact replace_rule_over_histories. Qed.
+Print Assumptions C10_replaced_only_by_newer.
+
+Theorem C10_rule1_meaning : forall {K D} (eqb : K -> K -> bool) (same : entry D -> entry D -> bool) t t',
+  rule1 eqb same t t' <->
+  forall k x y, stored eqb t k x -> stored eqb t' k y -> same x y = true -> y = x \/ newer y x = true.
+Proof. exact @rule1_meaning. Qed.
+
+Theorem C10_newer_meaning : forall {D} (y x : entry D),
+  newer y x = true <-> e_seq x < e_seq y \/ (e_seq y = e_seq x /\ e_metric y < e_metric x).
+Proof. exact @newer_spec. Qed.
+
+(** ... and the slot of a stored route identifies it: one route per key and
+    origin (per key, origin and next hop in the agent table), in every
+    reachable state; so rule 1 speaks about "the" stored route of an origin. *)
+Theorem C10_one_route_per_origin : forall (local : N) (ops : list op),
+  let m := run local ops in
+  (forall k x y, stored prefix_eqb (m_cidr m) k x -> stored prefix_eqb (m_cidr m) k y -> e_origin x = e_origin y -> x = y) /\
+  (forall k x y, stored str_eqb (m_dexact m) k x -> stored str_eqb (m_dexact m) k y -> e_origin x = e_origin y -> x = y) /\
+  (forall k x y, stored str_eqb (m_dwild m) k x -> stored str_eqb (m_dwild m) k y -> e_origin x = e_origin y -> x = y) /\
+  (forall k x y, stored str_eqb (m_fwd m) k x -> stored str_eqb (m_fwd m) k y -> e_origin x = e_origin y -> x = y) /\
+  (forall k x y, stored N.eqb (m_agent m) k x -> stored N.eqb (m_agent m) k y ->
+                 e_origin x = e_origin y -> e_nexthop x = e_nexthop y -> x = y).
+Proof. exact one_route_per_slot. Qed.
+Print Assumptions C10_one_route_per_origin.
+
+(** Rule 2 (loop rule): in every reachable state no stored route's path
+    contains the local agent. *)
+Theorem C10_no_self_in_path : forall (local : N) (ops : list op),
+  let m := run local ops in
+  (forall x, route_in (m_cidr m) x -> ~ In local (e_path x)) /\
+  (forall x, route_in (m_dexact m) x -> ~ In local (e_path x)) /\
+  (forall x, route_in (m_dwild m) x -> ~ In local (e_path x)) /\
+  (forall x, route_in (m_fwd m) x -> ~ In local (e_path x)) /\
+  (forall x, route_in (m_agent m) x -> ~ In local (e_path x)).
+Proof. exact no_self_path_over_histories. Qed.
+Print Assumptions C10_no_self_in_path.
+
+(** Rule 3 (peer disconnect): each of the four disconnect operations filters
+    every bucket of its table in place, keeping exactly the routes whose next
+    hop is not the peer (order preserved), and leaves the other tables
+    untouched. [filtered eqb f t t']: for every key k the bucket of k in t' is
+    [filter f] of the bucket of k in t. *)
+Theorem C10_disconnect_removes_exactly_the_peers_routes : forall (local : N) (ops : list op) (p : N),
+  let m := run local ops in
+  (let m' := next local m (ODisc p) in
+   filtered prefix_eqb (keep_peer p) (m_cidr m) (m_cidr m') /\
+   m_dexact m' = m_dexact m /\ m_dwild m' = m_dwild m /\ m_fwd m' = m_fwd m /\ m_agent m' = m_agent m) /\
+  (let m' := next local m (ODDisc p) in
+   filtered str_eqb (keep_peer p) (m_dexact m) (m_dexact m') /\
+   filtered str_eqb (keep_peer p) (m_dwild m) (m_dwild m') /\
+   m_cidr m' = m_cidr m /\ m_fwd m' = m_fwd m /\ m_agent m' = m_agent m) /\
+  (let m' := next local m (OFDisc p) in
+   filtered str_eqb (keep_peer p) (m_fwd m) (m_fwd m') /\
+   m_cidr m' = m_cidr m /\ m_dexact m' = m_dexact m /\ m_dwild m' = m_dwild m /\ m_agent m' = m_agent m) /\
+  (let m' := next local m (OADisc p) in
+   filtered N.eqb (keep_peer p) (m_agent m) (m_agent m') /\
+   m_cidr m' = m_cidr m /\ m_dexact m' = m_dexact m /\ m_dwild m' = m_dwild m /\ m_fwd m' = m_fwd m).
+Proof. exact disconnect_over_histories. Qed.
+Print Assumptions C10_disconnect_removes_exactly_the_peers_routes.
+
+Theorem C10_disconnect_meaning : forall {K D} eqb (t t' : table K D) p,
+  filtered eqb (keep_peer p) t t' ->
+  forall k x, stored eqb t' k x <-> stored eqb t k x /\ e_nexthop x <> p.
+Proof. exact @filtered_peer_meaning. Qed.
+
+(** Rule 4 (stale cleanup): each of the four cleanup operations, run when the
+    manager's clock reads [m_now m], filters every bucket of its table in
+    place keeping exactly the routes that are locally originated or whose age
+    [m_now m - e_last x] is at most maxAge, and leaves the other tables
+    untouched. In particular a locally originated route is never removed. *)
+Theorem C10_cleanup_removes_exactly_stale_nonlocal : forall (local : N) (ops : list op) (maxage : N),
+  let m := run local ops in
+  let f {D} := @keep_fresh D local (m_now m) maxage in
+  (let m' := next local m (OClean maxage) in
+   filtered prefix_eqb f (m_cidr m) (m_cidr m') /\
+   m_dexact m' = m_dexact m /\ m_dwild m' = m_dwild m /\ m_fwd m' = m_fwd m /\ m_agent m' = m_agent m) /\
+  (let m' := next local m (ODClean maxage) in
+   filtered str_eqb f (m_dexact m) (m_dexact m') /\
+   filtered str_eqb f (m_dwild m) (m_dwild m') /\
+   m_cidr m' = m_cidr m /\ m_fwd m' = m_fwd m /\ m_agent m' = m_agent m) /\
+  (let m' := next local m (OFClean maxage) in
+   filtered str_eqb f (m_fwd m) (m_fwd m') /\
+   m_cidr m' = m_cidr m /\ m_dexact m' = m_dexact m /\ m_dwild m' = m_dwild m /\ m_agent m' = m_agent m) /\
+  (let m' := next local m (OAClean maxage) in
+   filtered N.eqb f (m_agent m) (m_agent m') /\
+   m_cidr m' = m_cidr m /\ m_dexact m' = m_dexact m /\ m_dwild m' = m_dwild m /\ m_fwd m' = m_fwd m).
+Proof. exact cleanup_over_histories. Qed.
+Print Assumptions C10_cleanup_removes_exactly_stale_nonlocal.
+
+Theorem C10_cleanup_meaning : forall (local : N) {K D} eqb (t t' : table K D) now maxage,
+  filtered eqb (keep_fresh local now maxage) t t' ->
+  forall k x, stored eqb t' k x <->
+              stored eqb t k x /\ (e_origin x = local \/ now - e_last x <= maxage).
+Proof. exact filtered_fresh_meaning. Qed.
+
+Theorem C10_cleanup_never_removes_local : forall (local : N) {K D} eqb (t t' : table K D) now maxage,
+  filtered eqb (keep_fresh local now maxage) t t' ->
+  forall k x, stored eqb t k x -> e_origin x = local -> stored eqb t' k x.
+Proof. exact filtered_keeps_local. Qed.
